@@ -29,6 +29,27 @@ CHECKS = {
         design_ref="DESIGN.md §2 C02",
         note="Trusted: BLS (kyber bdn), SHA-256. Reference validator judges binding + signature + power, not block execution. Fast-sync path only at checkpoint heights (exempt by the property).",
     ),
+    "C10": dict(
+        engine="E-STORE",
+        category="exploration",
+        technique="runtime monitor: every read of generated store operation sequences compared online with a versioned-map model; concurrent snapshot reads checked for linearizability with porcupine and run under the race detector",
+        text="Sequential phase: set/delete/get/iterate/reverse-iterate/nested txn (flush/discard)/copy/commit/read-at-version/compact/flush/rollback sequences over <= 40 keys with shared "
+             "prefixes; every result and every committed version's forward and reverse scan (all four iterator strategies) is compared with the model and re-queried after later commits, "
+             "compaction and rollback. Concurrent phase: a writer commits versions with version-unique values while readers take NewReadOnly/Copy views during Commit, compaction and "
+             "async MaybeCompact; call/return histories are checked with porcupine and the same workload runs under -race in worker processes.",
+        design_ref="DESIGN.md §2 C10",
+        note="Keys whose segment tuple is a prefix of another key's are outside the schema canopy's key constructors produce and are only counted. pebble's own recovery/compaction is trusted.",
+    ),
+    "C13": dict(
+        engine="E-NODE",
+        category="exploration",
+        technique="runtime monitor: committee answers of 4 APIs for every past height compared with a reference derivation from raw validator scans, re-queried after every later block",
+        text="Seeded full-node chains with exact stake ties at the cap boundary, caps 1..n+1, delegate caps 0..2 and status churn every block; GetCommitteeMembers, LoadCommittee, "
+             "GetDelegates and LoadRootChainInfo for the newest and for sampled/all past heights are compared with filter-sort-cap over a raw scan, including total power and "
+             "floor(2T/3)+1 in big.Int, and the first answer for a height must never change (shared validator cache exercised over > 64 heights).",
+        design_ref="DESIGN.md §2 C13",
+        note="Cap 0 is reachable only for delegates (params reject MaxCommitteeSize 0). Concurrent readers are exercised by C10's race phase at store level, not here.",
+    ),
     "C12": dict(
         engine="E-NODE",
         category="exploration",
@@ -141,7 +162,7 @@ def main():
 
 NA = {}
 HOOK_COMMITS = ["bffe7c1", "d8cae5e"]
-FIX_COMMITS = ["ac69fcc", "f14e602", "7290d0d", "11d5f11", "edf91ea", "ab4ad20"]
+FIX_COMMITS = ["ac69fcc", "f14e602", "7290d0d", "11d5f11", "edf91ea", "ab4ad20", "ff68f31", "db26c33"]
 
 if __name__ == "__main__":
     main()
